@@ -4,9 +4,9 @@ import (
 	"errors"
 	"sync"
 
+	"github.com/gr33nbl00d/caddy-revocation-validator/core"
 	"github.com/gr33nbl00d/caddy-revocation-validator/crl/crlreader"
 	"github.com/gr33nbl00d/caddy-revocation-validator/crl/crlstore"
-	"github.com/gr33nbl00d/caddy-revocation-validator/core"
 )
 
 // FaultPlan tells the wrapping factory which store call to fail.
